@@ -7,7 +7,7 @@
   identical byte strings); `byteCmp_ok` shows the default `qtreetbl_byte_cmp` is one.
   Every `= .ok …` also says: no NULL dereference, no fuel exhaustion.
 -/
-import QlibcModel.Tree.TableSpec
+import QlibcModel.Tree.History
 import QlibcModel.Tree.ByteCmp
 
 namespace Qlibc.Props.C01
@@ -45,6 +45,81 @@ theorem clear_refines (s : Tbl K V) : (s.clear).Inv cmp ∧ s.clear.abs = [] := 
 theorem put_count (isEmpty : V → Bool) (k : K) (v : V) (m : List (K × V)) :
     (putSpec cmp isEmpty k v m).length = if memL cmp Prod.fst k m then m.length else m.length + 1 :=
   insL_length cmp Prod.fst (k, v) _ m
+
+/-- remove succeeds exactly when an equal key is present, removes only that key, never
+    faults and keeps the table valid -/
+theorem remove_refines (hc : CmpOk cmp) (s : Tbl K V) (k : K) (hi : s.Inv cmp) :
+    ∃ s', s.removeobj cmp k = .ok (s', memL cmp Prod.fst k s.abs) ∧ s'.Inv cmp ∧
+      s'.abs = delL cmp Prod.fst k s.abs :=
+  let ⟨s', h1, h2, h3, _⟩ := Tbl.removeobj_spec cmp hc s k hi
+  ⟨s', h1, h2, h3⟩
+
+/-- operations on one key never change what is stored under another: the ideal insert and
+    delete leave the lookup of every non-equal key alone -/
+theorem other_keys_untouched (hc : CmpOk cmp) (isEmpty : V → Bool) (k k' : K) (v : V) (m : List (K × V))
+    (hs : Sorted cmp Prod.fst m) (hne : cmp k' k ≠ .eq) :
+    getSpec cmp k' (putSpec cmp isEmpty k v m) = getSpec cmp k' m ∧
+    getSpec cmp k' (delL cmp Prod.fst k m) = getSpec cmp k' m := by
+  constructor
+  · induction m with
+    | nil =>
+      simp only [putSpec, insL, getSpec, lookupL]
+      cases h : cmp k' k <;> simp_all
+    | cons a rest ih =>
+      unfold Sorted at hs; rw [List.pairwise_cons] at hs
+      simp only [putSpec, insL, getSpec] at ih ⊢
+      rcases hka : cmp k a.1 with _ | _ | _
+      · -- k < a: new head
+        simp only [lookupL]
+        rcases hk : cmp k' k with _ | _ | _
+        · have : cmp k' a.1 = .lt := hc.lt_trans hk hka
+          simp [this]
+        · exact absurd hk hne
+        · simp
+      · -- k = a: replaced in place; k' is not equal to a either
+        simp only [lookupL]
+        have h1 : cmp k' (if isEmpty v then a else (a.1, v)).1 = cmp k' a.1 := by split <;> rfl
+        rw [h1]
+        rcases hk : cmp k' a.1 with _ | _ | _
+        · simp
+        · exact absurd (hc.eq_trans hk (hc.eq_symm hka)) hne
+        · simp
+      · simp only [lookupL]
+        rcases hk : cmp k' a.1 with _ | _ | _
+        · simp
+        · simp
+        · simpa using ih hs.2
+  · induction m with
+    | nil => simp [delL]
+    | cons a rest ih =>
+      unfold Sorted at hs; rw [List.pairwise_cons] at hs
+      simp only [getSpec] at ih ⊢
+      rcases hka : cmp k a.1 with _ | _ | _
+      · simp [delL, hka]
+      · -- the entry equal to k is dropped; k' differs from it, and if k' is above it the rest decides
+        simp only [delL, hka, lookupL]
+        rcases hk : cmp k' a.1 with _ | _ | _
+        · -- k' < a ≤ everything in rest
+          have : lookupL cmp Prod.fst k' rest = none :=
+            lookupL_all_lt k' rest (fun y hy => hc.lt_trans hk (hs.1 y hy))
+          simp [this]
+        · exact absurd (hc.eq_trans hk (hc.eq_symm hka)) hne
+        · simp
+      · simp only [delL, hka, lookupL]
+        rcases hk : cmp k' a.1 with _ | _ | _
+        · simp
+        · simp
+        · simpa using ih hs.2
+
+/-- **the property**: every finite sequence of put / get / remove / clear / size / find-min /
+    find-max calls on a fresh table returns exactly the outputs of the ideal sorted map, ends
+    with exactly its contents, and never faults — for every comparator that is a total
+    preorder, all key and value contents and lengths -/
+theorem history_refines (hc : CmpOk cmp) (isEmpty : V → Bool) (ops : List (Op K V)) :
+    ∃ s', (Tbl.init : Tbl K V).run cmp isEmpty ops = .ok (s', (specRun cmp isEmpty [] ops).2) ∧
+      s'.Inv cmp ∧ s'.abs = (specRun cmp isEmpty [] ops).1 := by
+  have := Tbl.run_refines cmp isEmpty hc ops (Tbl.init : Tbl K V) (Tbl.init_inv cmp)
+  simpa [(init_refines (V := V) cmp).2] using this
 
 -- non-vacuity: a two-key table built by the model satisfies the invariant's premises
 example : ∃ s : Tbl Bytes Bytes, (Tbl.init.putobj byteCmp (·.isEmpty) [1] [7]) = .ok (s, true) ∧ s.abs = [([1], [7])] := by
